@@ -296,7 +296,7 @@ func TestC07(t *testing.T) {
 func TestC08(t *testing.T) {
 	p := &world.Profile{Name: "oldest", MinGroups: 1, MaxGroups: 1, Auto: 1, MaxAge: 1, MaxInit: 14, SmallGraces: true, Steps: 12, Stale: true, MaxBelowASG: 1,
 		FaultFocus: "node-writes",
-		Weights:    map[string]int{"scan": 10, "targetUtil": 8, "fault": 3, "launch": 2, "taintExt": 1, "cordon": 1, "advance": 1, "removeTaint": 2, "setCreated": 3, "annotate": 2}}
+		Weights:    map[string]int{"scan": 10, "targetUtil": 8, "fault": 3, "launch": 2, "taintExt": 1, "cordon": 1, "advance": 1, "removeTaint": 2, "setCreated": 3, "annotate": 2, "dupNode": 1}}
 	col := newCollector(t, "C08", "history check; scale-down scans; non-trivial = 0 < tainted < untainted with >= 2 distinct creation times and a view order that is not already oldest-first; also ties and failed writes; distinct by (k, U, distinct times, sorted, ties, failed, stale)")
 	historyCheck(t, &historyOpts{prop: "C08", profile: p, col: col, classify: func(w *world.World, rec *world.ScanRecord) []string {
 		var keys []string
@@ -385,7 +385,7 @@ func TestC09(t *testing.T) {
 
 func TestC10(t *testing.T) {
 	p := &world.Profile{Name: "annot", MinGroups: 1, MaxGroups: 2, Fleet: 0, Auto: 1, MaxInit: 8, SmallGraces: true, Steps: 30, Stale: true,
-		Weights: with(baseWeights(), "annotate", 8, "taintExt", 6, "advance", 9, "clearNode", 3, "cordon", 1, "asgEdit", 2, "asgDesired", 2, "staleWindow", 2, "fault", 1, "leftoverNode", 2)}
+		Weights: with(baseWeights(), "annotate", 8, "taintExt", 6, "advance", 9, "clearNode", 3, "cordon", 1, "asgEdit", 2, "asgDesired", 2, "staleWindow", 2, "fault", 1, "leftoverNode", 2, "dueProtected", 3)}
 	col := newCollector(t, "C10", "history check; non-trivial = a reaping scan that sees an annotated node satisfying the removal condition, with or without other removable nodes; distinct by (temptation, value class, others removed, empty)")
 	historyCheck(t, &historyOpts{prop: "C10", profile: p, col: col, classify: func(w *world.World, rec *world.ScanRecord) []string {
 		var keys []string
@@ -476,7 +476,7 @@ func TestC11(t *testing.T) {
 
 func TestC12(t *testing.T) {
 	p := &world.Profile{Name: "isolation", MinGroups: 2, MaxGroups: 3, Dry: 1, Fleet: 1, Auto: 1, Default: 1, MaxInit: 6, SmallGraces: true, Steps: 30,
-		Weights: with(baseWeights(), "targetUtil", 12, "taintExt", 4, "fault", 2, "advance", 6, "addPods", 6, "drainAndForce", 1, "noProvNode", 2, "asgEdit", 2)}
+		Weights: with(baseWeights(), "targetUtil", 12, "taintExt", 4, "fault", 2, "advance", 6, "addPods", 6, "drainAndForce", 1, "noProvNode", 2, "asgEdit", 2, "neighbourFails", 3)}
 	col := newCollector(t, "C12", "history check with 2-3 groups; non-trivial = a scan in which at least two groups act, or one group fails non-fatally before another is processed; distinct by (acting groups, failing group position, default group present)")
 	historyCheck(t, &historyOpts{prop: "C12", profile: p, col: col, classify: func(w *world.World, rec *world.ScanRecord) []string {
 		acting, failedBefore := 0, false
@@ -599,7 +599,7 @@ func stringIndex(s, sub string) int {
 
 func TestC20(t *testing.T) {
 	p := &world.Profile{Name: "chaos", DupTaints: true, MinGroups: 1, MaxGroups: 3, Dry: 1, Fleet: 1, Auto: 1, Default: 1, Starve: 1, MaxAge: 1, MaxInit: 6, SmallGraces: true, Steps: 30, Stale: true,
-		Weights: with(baseWeights(), "oddNode", 5, "oddPod", 5, "fault", 8, "taintExt", 6, "killNode", 2, "detach", 1, "asgEdit", 1, "fleetPlan", 2, "advance", 8, "gcNodes", 1, "staleWindow", 2, "zeroOut", 1, "tinyThenZero", 2)}
+		Weights: with(baseWeights(), "oddNode", 5, "oddPod", 5, "fault", 8, "taintExt", 6, "killNode", 2, "detach", 1, "asgEdit", 1, "fleetPlan", 2, "advance", 8, "gcNodes", 1, "staleWindow", 2, "zeroOut", 1, "tinyThenZero", 2, "dupNode", 2)}
 	col := newCollector(t, "C20", "chaos histories: malformed nodes/pods, absurd taint values, API and cloud failures at drawn call indices; non-trivial = a scan in which an injected failure was hit, or an odd object was part of a processed in-bounds group; distinct by (fault kinds hit, odd kinds present, outcome)")
 	historyCheck(t, &historyOpts{prop: "C20", profile: p, col: col, classify: func(w *world.World, rec *world.ScanRecord) []string {
 		var keys []string
